@@ -550,6 +550,21 @@ def parent_main(args):
                 os.remove(out)
             procs.append(("search", out, spawn(pid, tier, seed + 7919 * ci, shard, nshards,
                                                "all", out, extra_env=extra)))
+    # ---- coverage-guided campaign (thorough tier complement, modules that ask for it)
+    fuzz_runs = (getattr(mod, "FUZZ_RUNS", None) or {}).get(tier, 0)
+    fuzz_out = None
+    if fuzz_runs and not os.environ.get("VERIF_NO_FUZZ"):
+        import shutil
+        fuzz_out = os.path.join(work, "%s-fuzz.json" % pid)
+        corpus = os.path.join(work, "%s-fuzz-corpus" % pid)
+        shutil.rmtree(corpus, ignore_errors=True)
+        if os.path.exists(fuzz_out):
+            os.remove(fuzz_out)
+        env = dict(os.environ, PYTHONHASHSEED="0", VERIF_REPO=REPO, OMP_NUM_THREADS="1")
+        flog = open(fuzz_out + ".log", "w")
+        fproc = subprocess.Popen([PY, "-B", os.path.join(ROOT, "pbt", "fuzz.py"), "--property", pid,
+                                  "--runs", str(fuzz_runs), "--seed", str(seed), "--out", fuzz_out,
+                                  "--corpus", corpus], cwd=ROOT, env=env, stdout=flog, stderr=flog)
     results = []
     for kind, out, p in procs:
         p.wait()
@@ -599,6 +614,27 @@ def parent_main(args):
                 harness_problem.append("harness exceptions (%d): %s" % (
                     res["n_harness_errors"], res["harness_errors"][:1]))
 
+    fuzz_info = None
+    if fuzz_out:
+        try:
+            fproc.wait(timeout=int(os.environ.get("VERIF_FUZZ_TIMEOUT", "1500")))
+        except subprocess.TimeoutExpired:
+            fproc.kill()
+        try:
+            fuzz_info = json.load(open(fuzz_out))
+        except Exception:
+            fuzz_info = {"skipped": "no result file (status %s)" % fproc.returncode}
+        import shutil
+        shutil.rmtree(os.path.join(work, "%s-fuzz-corpus" % pid), ignore_errors=True)
+        if fuzz_info.get("failure"):
+            f = fuzz_info["failure"]
+            if f["bucket"] in mod_known:
+                known_hit[f["bucket"]] += 1
+            else:
+                path = write_replay(pid, f["bucket"], f["case"], f["message"], "fuzz-s%d" % seed)
+                violations.append((f["bucket"], path, "[coverage-guided campaign] " + f["message"]))
+        fuzz_info = {k: v for k, v in fuzz_info.items() if k not in ("failure", "labels")}
+
     # ---- merge
     evals = sum(r["evaluations"] for r in results)
     extra = sum(r["extra_evals"] for r in results)
@@ -646,7 +682,7 @@ def parent_main(args):
     for b, (rep, text) in sorted(mod_known.items()):
         print("KNOWN-FINDING: property=%s %s [key=%s hits=%d]" % (pid, text, b, known_hit.get(b, 0)))
 
-    total_evals = evals + extra
+    total_evals = evals + extra + int((fuzz_info or {}).get("execs", 0) or 0)
     n_nontrivial = len(hashes) + extra_nt
     total_cases = evals + sum(discarded.values())
     if total_cases and sum(discarded.values()) > 0.2 * total_cases:
@@ -681,6 +717,7 @@ def parent_main(args):
             "unknown_buckets": sorted(b for b, _, _ in violations),
             "versions": versions(),
             "harness_problems": harness_problem[:5],
+            "coverage_guided_campaign": fuzz_info or "not part of this tier/property",
         },
         "assumptions": modinfo.get("assumptions", []),
         "wall_s": round(time.time() - t0, 2),
